@@ -17,7 +17,7 @@ use hulc::ctehexml::{self, CtehexmlData};
 use crate::engine::{fnv64, mix, worker_call, Args, CaseH, Ctx, ReplayDoc, Tier, Verdict, WorkerOut};
 use crate::util::{files_named, files_with_ext, read_latin1};
 
-pub const EDITS: [&str; 9] = ["delete-line", "duplicate-line", "truncate-after", "number->abc", "number->1e39", "number->-1", "number->NaN", "rename-quoted", "delete-block"];
+pub const EDITS: [&str; 11] = ["delete-line", "duplicate-line", "truncate-after", "number->abc", "number->1e39", "number->-1", "number->NaN", "number->0", "number->99", "rename-quoted", "delete-block"];
 
 #[derive(Clone, Debug, Serialize, Deserialize)]
 pub struct FaultCase {
@@ -124,7 +124,7 @@ pub fn apply_edit(lines: &[&str], eol: &str, c: &FaultCase, kind: Kind) -> Optio
         "truncate-after" => {
             out.extend(lines[..=i].iter().map(|l| l.to_string()));
         }
-        "number->abc" | "number->1e39" | "number->-1" | "number->NaN" => {
+        "number->abc" | "number->1e39" | "number->-1" | "number->NaN" | "number->0" | "number->99" => {
             let (a, b) = first_number_span(lines[i])?;
             let rep = &c.edit["number->".len()..];
             for (k, l) in lines.iter().enumerate() {
@@ -224,7 +224,8 @@ pub fn run_pipeline(kind: Kind, text: &str, through_real_entry: bool) -> Result<
             Ok(format!("kyg walls={} windows={}", k.walls.len(), k.windows.len()))
         }
         Kind::Tbl => {
-            let dir = Path::new("/verif/target/tmp");
+            let dir = crate::engine::target_dir().join("tmp");
+            let dir = dir.as_path();
             let _ = std::fs::create_dir_all(dir);
             let p = dir.join(format!("c19-{}-{:x}.tbl", std::process::id(), fnv64(text.as_bytes())));
             // the parser reads Latin-1: write one byte per char
@@ -248,7 +249,7 @@ pub fn worker(sub: &str, v: Value) -> Value {
     let text = TEXTS.with(|t| t.borrow_mut().entry(c.file.clone()).or_insert_with(|| read_text(&c.file)).clone());
     let eol = if text.contains("\r\n") { "\r\n" } else { "\n" };
     let lines: Vec<&str> = text.split(eol).collect();
-    let damaged = if c.edit == "intact" { Some(text.clone()) } else { apply_edit(&lines, eol, &c, kind) };
+    let damaged = if c.edit == "intact" || c.edit == "saved-input" { Some(text.clone()) } else { apply_edit(&lines, eol, &c, kind) };
     let damaged = match damaged {
         Some(d) => d,
         None => return json!({"applied": false}),
@@ -279,7 +280,7 @@ fn worker_extra(v: Value) -> Value {
         None => return json!({"applied": false}),
     };
     let src = Path::new(&c.file).parent().expect("project directory");
-    let dir = Path::new("/verif/target/tmp/c19x").join(format!("p{}", std::process::id()));
+    let dir = crate::engine::target_dir().join("tmp").join("c19x").join(format!("p{}", std::process::id()));
     let _ = std::fs::remove_dir_all(&dir);
     std::fs::create_dir_all(&dir).expect("scratch directory");
     let lat = |s: &str| -> Vec<u8> { s.chars().map(|ch| if (ch as u32) < 256 { ch as u8 } else { b'?' }).collect() };
@@ -331,10 +332,22 @@ fn check_extra(h: &CaseH, c: &FaultCase) -> Verdict {
     }
 }
 
+/// hangs seen so far: every one costs a full watchdog period, so after a few (the violation is recorded by
+/// then) the remaining cases of the enumeration are skipped and counted
+static HANGS: std::sync::atomic::AtomicUsize = std::sync::atomic::AtomicUsize::new(0);
+const MAX_HANGS: usize = 6;
+
 fn check_case(h: &CaseH, c: &FaultCase) -> Verdict {
     let kind = kind_of(&c.file);
     let kname = format!("{:?}", kind);
+    if !h.strict && HANGS.load(std::sync::atomic::Ordering::Relaxed) >= MAX_HANGS {
+        h.class("skipped-after-repeated-hangs");
+        return Verdict::Pass;
+    }
     let out = worker_call("C19.fault", c, Duration::from_secs(60));
+    if matches!(out, WorkerOut::Hang) {
+        HANGS.fetch_add(1, std::sync::atomic::Ordering::Relaxed);
+    }
     match out {
         WorkerOut::Ok(v) => {
             if v["applied"] == json!(false) {
@@ -359,12 +372,12 @@ fn check_case(h: &CaseH, c: &FaultCase) -> Verdict {
 }
 
 fn short(p: &str) -> &str {
-    p.trim_start_matches("/repo/hulc_tests/tests/")
+    p.trim_start_matches("/repo/hulc_tests/tests/").rsplit("regressions/C19/").next().unwrap_or("")
 }
 
 pub fn run(args: &Args) -> ! {
     let ctx = Ctx::new("C19", "fault_enumeration", args);
-    ctx.rule("fault enumeration: for every shipped project file (.ctehexml, legacy .cte, KyGananciasSolares.txt, NewBDL_O.tbl; located by glob at run time) and every line: delete / duplicate / truncate-after / first number -> abc, 1e39, -1, NaN / rename the quoted name / delete the enclosing block; plus the intact file. thorough = every line; quick = a seeded 1/48 slice of the lines of every file plus one line of every distinct attribute key and block type per file kind (all edit kinds on each chosen line). extra_files: the same edits of every KyGananciasSolares.txt / NewBDL_O.tbl that lies next to a project (thorough: every line, quick: a seeded 1/6 slice), placed with the intact project file in a scratch directory and read through hulc2model::collect_hulc_data(dir, true, true). Each damaged text goes through parse (+ LIDER catalogue merge) + Model::try_from (kyg/tbl: parse) in a worker process under a 60 s watchdog: Ok or Err passes, panic / hang / process death is a violation, one per distinct panic signature (file + function + masked message). Non-trivial: the damaged line is neither blank nor a comment.");
+    ctx.rule("fault enumeration: for every shipped project file (.ctehexml, legacy .cte, KyGananciasSolares.txt, NewBDL_O.tbl; located by glob at run time) and every line: delete / duplicate / truncate-after / first number -> abc, 1e39, -1, NaN, 0, 99 / rename the quoted name / delete the enclosing block; plus the intact file. thorough = every line; quick = a seeded 1/48 slice of the lines of every file plus one line of every distinct attribute key and block type per file kind (all edit kinds on each chosen line). extra_files: the same edits of every KyGananciasSolares.txt / NewBDL_O.tbl that lies next to a project (thorough: every line, quick: a seeded 1/6 slice), placed with the intact project file in a scratch directory and read through hulc2model::collect_hulc_data(dir, true, true). saved_inputs: crashing inputs of earlier fuzz campaigns kept as plain files under regressions/C19/inputs, replayed in every run. Each damaged text goes through parse (+ LIDER catalogue merge) + Model::try_from (kyg/tbl: parse) in a worker process under a 60 s watchdog: Ok or Err passes, panic / hang / process death is a violation, one per distinct panic signature (file + function + masked message). Non-trivial: the damaged line is neither blank nor a comment.");
     ctx.assume("the LIDER catalogue is decoded once per worker and merged per case exactly as parse_with_catalog does; 1 case in 64 goes through the real parse_with_catalog as a cross-check");
     ctx.replay_regressions(replay_one);
     let files = corpus();
@@ -433,7 +446,19 @@ pub fn run(args: &Args) -> ! {
     let mut order: Vec<usize> = (0..cases.len()).collect();
     order.sort_by_key(|i| mix(ctx.seed(), "order", *i as u64));
     let cases: Vec<FaultCase> = order.into_iter().map(|i| cases[i].clone()).collect();
+    // inputs saved from earlier campaigns (crashing inputs of fuzz runs, kept as plain files): replayed first
+    let saved: Vec<FaultCase> = {
+        let mut v = files_with_ext(&crate::engine::verif_dir().join("regressions").join("C19").join("inputs"), &["ctehexml", "cte", "tbl", "txt"]);
+        v.sort();
+        v.into_iter().map(|p| FaultCase { file: p.to_string_lossy().to_string(), line: 0, edit: "saved-input".into() }).collect()
+    };
+    ctx.run_enum("saved_inputs", &saved, true, check_case);
     ctx.run_enum("faults", &cases, ctx.tier() == Tier::Thorough, check_case);
+    let skipped = ctx.class_total("faults/skipped-after-repeated-hangs");
+    if skipped > 0 {
+        ctx.note(format!("{} hangs were observed (each is a violation and costs a 60 s watchdog period); the remaining {} cases of the enumeration were skipped", MAX_HANGS, skipped));
+        ctx.budget_exhausted();
+    }
     // the result files next to their project, through the export tool's library entry
     let mut xcases: Vec<FaultCase> = vec![];
     let xdenom: u64 = ctx.tier().pick(6, 1);
@@ -587,6 +612,9 @@ fn fuzz_campaigns(ctx: &Ctx, files: &[PathBuf]) {
 }
 
 pub fn replay_one(ctx: &Ctx, doc: &ReplayDoc) {
+    if doc.sub == "saved_inputs" {
+        return crate::engine::replay_case::<FaultCase>(ctx, &doc.sub, &doc.case, check_case);
+    }
     if doc.sub == "extra_files" {
         return crate::engine::replay_case::<FaultCase>(ctx, &doc.sub, &doc.case, check_extra);
     }
